@@ -30,9 +30,14 @@ class TagFlow:
                  hook: Hook | None = None,
                  call_effect: Callable[[ast.Call, State, "TagFlow"],
                                        None] | None = None,
-                 iter_elem: Callable[[frozenset], frozenset] | None = None):
+                 iter_elem: Callable[[frozenset], frozenset] | None = None,
+                 store_elem: Callable[[frozenset], frozenset] | None = None):
         self.cfg = cfg
         self.iter_elem = iter_elem or (lambda t: t)
+        # tags a container acquires when an element with tags t is stored in
+        # it (append / add / insert / put / container[i] = x); when given,
+        # container[i] loads go through iter_elem
+        self.store_elem = store_elem
         self.hook = hook
         self.call_effect = call_effect
         self.before: dict[Node, State] = {}
@@ -56,6 +61,9 @@ class TagFlow:
             if expr.id in local:
                 return local[expr.id]
             return state.get(expr.id, EMPTY)
+        if self.store_elem is not None and isinstance(
+                expr, ast.Subscript) and not isinstance(expr.slice, ast.Slice):
+            return self.iter_elem(rec(expr.value))
         if isinstance(expr, ast.Attribute):
             d = dotted(expr)
             if d is not None:
@@ -159,7 +167,12 @@ class TagFlow:
             if isinstance(a, ast.Assign):
                 t = self.tags(a.value, s)
                 for tgt in a.targets:
-                    self._assign(tgt, t, s)
+                    if self.store_elem is not None and isinstance(
+                            tgt, ast.Subscript):
+                        self._assign(tgt.value, self.store_elem(t), s,
+                                     weak=True)
+                    else:
+                        self._assign(tgt, t, s)
             elif isinstance(a, ast.AnnAssign) and a.value is not None:
                 self._assign(a.target, self.tags(a.value, s), s)
             elif isinstance(a, ast.AugAssign):
@@ -186,6 +199,10 @@ class TagFlow:
                     args = args[1:]  # the key does not alias
                 for arg in args:
                     t |= self.tags(arg, s)
+                if self.store_elem is not None and f.attr in (
+                        "append", "add", "insert", "appendleft", "put",
+                        "put_nowait"):
+                    t = self.store_elem(t)
                 if t:
                     self._assign(f.value, t, s, weak=True)
             if self.call_effect is not None:
